@@ -298,4 +298,115 @@ theorem normScore_no_wrap {norm s : Int} (hs : I32 s) (hn : WORST ≤ norm ∧ n
   simp only [i32_iff, shr_eq] at *
   omega
 
+
+/-! ## the top-N lists stay sorted (`insertion_sort_topn`, `insertion_sort_cb`) -/
+
+/-- sorted best-first: every entry scores at least as much as every later one -/
+def SortedDesc (l : List TopN) : Prop := l.Pairwise (fun a b => a.score ≥ b.score)
+/-- the same list seen from its end (as the C loops scan it) -/
+def SortedAsc (l : List TopN) : Prop := l.Pairwise (fun a b => a.score ≤ b.score)
+
+theorem sortedDesc_iff_rev (l : List TopN) : SortedDesc l ↔ SortedAsc l.reverse := by
+  unfold SortedDesc SortedAsc
+  rw [List.pairwise_reverse]
+
+theorem beats_le {strict : Bool} {e x : TopN} (h : beats strict e x = true) : x.score ≤ e.score := by
+  unfold beats at h
+  cases strict <;> simp at h <;> omega
+
+theorem not_beats_le {strict : Bool} {e x : TopN} (h : ¬ beats strict e x = true) : e.score ≤ x.score := by
+  unfold beats at h
+  cases strict <;> simp at h <;> omega
+
+theorem mem_insRev (strict : Bool) (e : TopN) : ∀ (l : List TopN) (x : TopN),
+    x ∈ insRev strict e l ↔ x = e ∨ x ∈ l
+  | [], x => by simp [insRev]
+  | y :: ys, x => by
+    unfold insRev
+    by_cases hb : beats strict e y = true
+    · rw [if_pos hb]
+      simp only [List.mem_cons, mem_insRev strict e ys x]
+      constructor
+      · rintro (h | h | h)
+        · exact Or.inr (Or.inl h)
+        · exact Or.inl h
+        · exact Or.inr (Or.inr h)
+      · rintro (h | h | h)
+        · exact Or.inr (Or.inl h)
+        · exact Or.inl h
+        · exact Or.inr (Or.inr h)
+    · rw [if_neg hb]
+      simp only [List.mem_cons]
+
+/-- one right-to-left insertion scan keeps an ascending (reversed) list ascending — for either comparison -/
+theorem insRev_sorted (strict : Bool) (e : TopN) : ∀ (l : List TopN), SortedAsc l → SortedAsc (insRev strict e l)
+  | [], _ => by simp [insRev, SortedAsc]
+  | y :: ys, h => by
+    unfold SortedAsc at h ⊢
+    obtain ⟨hy, hys⟩ := List.pairwise_cons.1 h
+    unfold insRev
+    by_cases hb : beats strict e y = true
+    · rw [if_pos hb]
+      refine List.pairwise_cons.2 ⟨?_, insRev_sorted strict e ys hys⟩
+      intro a ha
+      rcases (mem_insRev strict e ys a).1 ha with rfl | ha
+      · exact beats_le hb
+      · exact hy a ha
+    · rw [if_neg hb]
+      refine List.pairwise_cons.2 ⟨?_, h⟩
+      intro a ha
+      have hey := not_beats_le hb
+      rcases List.mem_cons.1 ha with rfl | ha
+      · exact hey
+      · exact Int.le_trans hey (hy a ha)
+
+theorem insertTopn_sorted (e : TopN) {pre : List TopN} (h : SortedDesc pre) : SortedDesc (insertTopn e pre) := by
+  unfold insertTopn
+  rw [sortedDesc_iff_rev, List.reverse_reverse]
+  exact insRev_sorted true e _ ((sortedDesc_iff_rev pre).1 h)
+
+theorem insertCb_sorted (e : TopN) {l : List TopN} (h : SortedDesc l) : SortedDesc (insertCb e l) := by
+  unfold insertCb
+  rw [sortedDesc_iff_rev, List.reverse_reverse]
+  apply insRev_sorted
+  exact List.Pairwise.sublist (List.drop_sublist 1 _) ((sortedDesc_iff_rev l).1 h)
+
+theorem foldl_insertTopn_sorted (score : Nat → Int) : ∀ (l pre : List TopN), SortedDesc pre →
+    SortedDesc (l.foldl (fun pre x => insertTopn { x with score := score x.cw } pre) pre)
+  | [], pre, h => h
+  | x :: xs, pre, h => by
+    simp only [List.foldl_cons]
+    exact foldl_insertTopn_sorted score xs _ (insertTopn_sorted _ h)
+
+theorem evalTopn_sorted (score : Nat → Int) (l : List TopN) : SortedDesc (evalTopn score l) :=
+  foldl_insertTopn_sorted score l [] List.Pairwise.nil
+
+theorem evalCb_sorted (dens : Nat → Int) (nden : Nat) {l : List TopN} (h : SortedDesc l) :
+    SortedDesc (evalCb dens nden l) := by
+  unfold evalCb
+  generalize List.range nden = cws
+  induction cws generalizing l with
+  | nil => exact h
+  | cons cw rest ih =>
+    simp only [List.foldl_cons]
+    apply ih
+    split
+    · exact h
+    · split
+      · exact h
+      · exact insertCb_sorted _ h
+
+/-- in a sorted list the first entry is the best one -/
+theorem head_is_max {l : List TopN} (h : SortedDesc l) : ∀ e ∈ l, e.score ≤ headScore l := by
+  cases l with
+  | nil => intro e he; cases he
+  | cons x xs =>
+    intro e he
+    unfold SortedDesc at h
+    obtain ⟨hx, _⟩ := List.pairwise_cons.1 h
+    simp only [headScore, List.headD_cons]
+    rcases List.mem_cons.1 he with rfl | he
+    · exact Int.le_refl _
+    · exact hx e he
+
 end SSVerif.Ranges
